@@ -275,6 +275,10 @@ func Verify(data []byte, ex Expect) (*Info, *Issue) {
 					if ci2.Has(5) && ci2.List(5)[i].I != int64(pn) {
 						return info, issue("column-index-null-counts", "%s: null_counts[%d]=%d, counted %d", where, i, ci2.List(5)[i].I, pn)
 					}
+					// parquet.thrift, ColumnIndex: for a page holding only nulls, min_values and max_values are byte[0]
+					if allNull && (len(ci2.List(2)[i].B) != 0 || len(ci2.List(3)[i].B) != 0) {
+						return info, issue("column-index-null-page-bounds", "%s: page %d holds only nulls, its column index entries are min=%x max=%x instead of empty values", where, i, ci2.List(2)[i].B, ci2.List(3)[i].B)
+					}
 				}
 			}
 			// bloom filter
